@@ -73,6 +73,55 @@ func (c c18Case) devKey(devs []c18Dev) string {
 	return fmt.Sprintf("L=%d,T=%d,limit=%d,dev=%s", c.Local, c.Last, c.Limit, strings.Join(parts, "+"))
 }
 
+// alternatives for the answer to "last suffrage proof" (the default answer is the right proof
+// of the remote's last height, updated=true, no error). Every alternative is derived from the
+// proof of c.Last, so that each of them is older than / equal to / newer than the local state
+// through the local x last loops.
+//
+//	kind "valid":   a proof that passes IsValid, updated=true: Build may fetch; every arrival order is run
+//	kind "offered": a proof object is handed over which must not be adopted (it fails IsValid) or
+//	                need not be used (updated=false, error): the real Build never fetches, so only
+//	                the identity arrival order is planned (used when a defective Build goes on)
+//	kind "none":    no proof object at all: nothing can be fetched
+var c18LastAlts = []struct{ name, kind string }{
+	{"foreign", "valid"},               // same height of a foreign chain
+	{"notupdated", "none"},             // updated=false, nil proof
+	{"error", "none"},                  // error
+	{"shifted", "valid"},               // same suffrage height, block height 10 higher: newer block, not necessarily newer suffrage
+	{"nilproof", "none"},               // updated=true, nil proof
+	{"zero", "offered"},                // zero value of isaacblock.SuffrageProof
+	{"nilstate", "offered"},            // no state (what a message with "state": null decodes to)
+	{"nilmap", "offered"},              // no block map
+	{"nilmanifest", "offered"},         // block map without manifest
+	{"unsigned", "offered"},            // block map without signature
+	{"othernet", "offered"},            // block map signed for another network id
+	{"emptytreeproof", "offered"},      // empty fixedtree proof
+	{"notsuffrage", "offered"},         // state of the same block height which is not a suffrage state
+	{"heightmismatch", "offered"},      // right state with the (valid) block map of another block height
+	{"notupdated+proof", "offered"},    // updated=false together with the right proof
+	{"notupdated+nilstate", "offered"}, // updated=false together with a proof without state
+	{"error+proof", "offered"},         // error together with the right proof and updated=true
+}
+
+func c18LastAltNames() string {
+	names := make([]string, len(c18LastAlts))
+	for i := range c18LastAlts {
+		names[i] = c18LastAlts[i].name
+	}
+
+	return strings.Join(names, "/")
+}
+
+func c18LastKind(alt string) string {
+	for i := range c18LastAlts {
+		if c18LastAlts[i].name == alt {
+			return c18LastAlts[i].kind
+		}
+	}
+
+	panic("c18: unknown last alternative " + alt)
+}
+
 // alternatives for one requested height h (the default answer is the right proof)
 func c18HeightAlts(h, local, nheights int, shifted bool) []string {
 	alts := []string{"notfound", "error", "foreign"}
@@ -123,7 +172,6 @@ func c18Perms(n int, thorough bool) [][]int {
 
 		return out
 	}
-
 
 	id := make([]int, n)
 	rev := make([]int, n)
@@ -196,7 +244,12 @@ func c18EnumerateConfig(local, last int, limit int64, nheights int, shifted, tho
 		alts []string
 	}
 
-	positions := []pos{{"last", []string{"foreign", "notupdated", "error"}}, {"cand", []string{"error"}}}
+	lastalts := make([]string, len(c18LastAlts))
+	for i := range c18LastAlts {
+		lastalts[i] = c18LastAlts[i].name
+	}
+
+	positions := []pos{{"last", lastalts}, {"cand", []string{"error"}}}
 
 	n := 0
 	if last > local {
@@ -232,11 +285,27 @@ func c18EnumerateConfig(local, last int, limit int64, nheights int, shifted, tho
 		permsets[i] = c18Perms(sizes[i], thorough)
 	}
 
+	identity := make([][][]int, len(sizes))
+	for i := range sizes {
+		identity[i] = c18Perms(sizes[i], false)[:1]
+	}
+
+	allperms := permsets
+
 	for _, devs := range devsets {
 		fetch := n > 0
+		permsets := allperms
+
 		for _, d := range devs {
-			if d.Pos == "last" && d.Alt != "foreign" {
+			if d.Pos != "last" {
+				continue
+			}
+
+			switch c18LastKind(d.Alt) {
+			case "none":
 				fetch = false
+			case "offered":
+				permsets = identity
 			}
 		}
 
@@ -291,6 +360,8 @@ type c18Env struct {
 	main     []base.SuffrageProof
 	foreign  []base.SuffrageProof
 	shifted  []base.SuffrageProof
+	// proofs derived from main[h] which are handed over as the remote's last proof, by alternative
+	lastmenu map[string][]base.SuffrageProof
 }
 
 func (e *c18Env) proof(blockheight, sufheight base.Height, previous base.State, nodes []base.Node) base.SuffrageProof {
@@ -393,7 +464,111 @@ func c18NewEnv(t *testing.T, nheights int) *c18Env {
 		}
 	}
 
+	e.buildLastMenu()
+
 	return e
+}
+
+var c18OtherNetworkID = base.NetworkID([]byte("c18 another network"))
+
+func c18IsValid(proof base.SuffrageProof, networkID base.NetworkID) error {
+	if proof == nil {
+		return errors.Errorf("nil proof")
+	}
+
+	var err error
+
+	if panicked, msg := vlib.Catch(func() { err = proof.IsValid(networkID) }); panicked {
+		return errors.Errorf("IsValid panicked: %s", msg)
+	}
+
+	return err
+}
+
+// buildLastMenu derives, from the right proof of every height, the malformed proofs of the last proof menu.
+func (e *c18Env) buildLastMenu() {
+	t := e.s
+	e.lastmenu = map[string][]base.SuffrageProof{}
+
+	for h := 0; h < e.nheights; h++ {
+		right := e.main[h].(isaacblock.SuffrageProof)          //nolint:forcetypeassert //...
+		rightmap := right.Map().(isaacblock.BlockMap)          //nolint:forcetypeassert //...
+		shiftedmap := e.shifted[h].Map().(isaacblock.BlockMap) //nolint:forcetypeassert //...
+		blockheight := right.State().Height()
+
+		nilmanifest := rightmap
+		nilmanifest.SetManifest(nil)
+
+		unsigned := rightmap
+		unsigned.BaseNodeSign = base.BaseNodeSign{}
+
+		othernet := rightmap
+		if err := othernet.Sign(t.Local.Address(), t.Local.Privatekey(), c18OtherNetworkID); err != nil {
+			panic(err)
+		}
+
+		for alt, proof := range map[string]base.SuffrageProof{
+			"zero":           isaacblock.SuffrageProof{},
+			"nilstate":       isaacblock.NewSuffrageProof(rightmap, nil, right.Proof()),
+			"nilmap":         isaacblock.NewSuffrageProof(nil, right.State(), right.Proof()),
+			"nilmanifest":    isaacblock.NewSuffrageProof(nilmanifest, right.State(), right.Proof()),
+			"unsigned":       isaacblock.NewSuffrageProof(unsigned, right.State(), right.Proof()),
+			"othernet":       isaacblock.NewSuffrageProof(othernet, right.State(), right.Proof()),
+			"emptytreeproof": isaacblock.NewSuffrageProof(rightmap, right.State(), fixedtree.Proof{}),
+			"notsuffrage":    isaacblock.NewSuffrageProof(rightmap, t.States(blockheight, 1)[0], right.Proof()),
+			"heightmismatch": isaacblock.NewSuffrageProof(shiftedmap, right.State(), right.Proof()),
+		} {
+			// sanity of the harness' own menu: every one of them is invalid
+			if err := c18IsValid(proof, t.LocalParams.NetworkID()); err == nil {
+				panic(fmt.Sprintf("c18: last proof alternative %q of height %d is valid", alt, h))
+			}
+
+			e.lastmenu[alt] = append(e.lastmenu[alt], proof)
+		}
+
+		for _, proof := range []base.SuffrageProof{e.main[h], e.foreign[h], e.shifted[h]} {
+			if err := c18IsValid(proof, t.LocalParams.NetworkID()); err != nil {
+				panic(fmt.Sprintf("c18: proof of height %d of a valid chain is invalid: %v", h, err))
+			}
+		}
+	}
+}
+
+// c18LastAnswer is what the remote answers for "last suffrage proof".
+type c18LastAnswer struct {
+	proof   base.SuffrageProof
+	updated bool
+	err     error
+}
+
+func (e *c18Env) lastAnswer(alt string, h int) c18LastAnswer {
+	switch alt {
+	case "right":
+		return c18LastAnswer{proof: e.main[h], updated: true}
+	case "foreign":
+		return c18LastAnswer{proof: e.foreign[h], updated: true}
+	case "shifted":
+		return c18LastAnswer{proof: e.shifted[h], updated: true}
+	case "notupdated":
+		return c18LastAnswer{}
+	case "error":
+		return c18LastAnswer{err: errors.Errorf("c18: scripted last proof error")}
+	case "nilproof":
+		return c18LastAnswer{updated: true}
+	case "notupdated+proof":
+		return c18LastAnswer{proof: e.main[h]}
+	case "notupdated+nilstate":
+		return c18LastAnswer{proof: e.lastmenu["nilstate"][h]}
+	case "error+proof":
+		return c18LastAnswer{proof: e.main[h], updated: true, err: errors.Errorf("c18: scripted last proof error")}
+	default:
+		proofs, found := e.lastmenu[alt]
+		if !found {
+			panic("c18: unknown last alternative " + alt)
+		}
+
+		return c18LastAnswer{proof: proofs[h], updated: true}
+	}
 }
 
 // ---------------------------------------------------------------- one execution
@@ -476,14 +651,7 @@ func (e *c18Env) execute(c c18Case) c18Result {
 		localstate = e.main[c.Local].State()
 	}
 
-	var lastproof base.SuffrageProof
-
-	switch lastalt {
-	case "right":
-		lastproof = e.main[c.Last]
-	case "foreign":
-		lastproof = e.foreign[c.Last]
-	}
+	last := e.lastAnswer(lastalt, c.Last)
 
 	arrive := make(chan c18Arrival)
 
@@ -492,14 +660,11 @@ func (e *c18Env) execute(c c18Case) c18Result {
 	builder := isaac.NewSuffrageStateBuilder(
 		e.s.LocalParams.NetworkID(),
 		func(context.Context) (base.Height, base.SuffrageProof, bool, error) {
-			switch lastalt {
-			case "error":
-				return base.NilHeight, nil, false, errors.Errorf("c18: scripted last proof error")
-			case "notupdated":
-				return base.Height(77), nil, false, nil
-			default:
-				return base.Height(77), lastproof, true, nil
+			if last.err != nil {
+				return base.NilHeight, last.proof, last.updated, last.err
 			}
+
+			return base.Height(77), last.proof, last.updated, nil
 		},
 		func(_ context.Context, height base.Height) (base.SuffrageProof, bool, error) {
 			a := c18Arrival{height: height, release: make(chan struct{})}
@@ -644,7 +809,7 @@ func (e *c18Env) execute(c c18Case) c18Result {
 	close(park)
 	c18WaitGoroutines(g0+1, nil)
 
-	res := e.judge(c, localstate, lastproof, lastalt, result.proofs, result.err)
+	res := e.judge(c, localstate, last, lastalt, result.proofs, result.err)
 	res.Entered = entered
 	res.Fetched = fetched
 
@@ -653,10 +818,14 @@ func (e *c18Env) execute(c c18Case) c18Result {
 
 // judge is the property statement.
 func (e *c18Env) judge(
-	c c18Case, localstate base.State, lastproof base.SuffrageProof, lastalt string,
+	c c18Case, localstate base.State, last c18LastAnswer, lastalt string,
 	proofs []base.SuffrageProof, err error,
 ) c18Result {
 	res := c18Result{}
+
+	lastproof := last.proof
+	// the remote announced a last proof
+	announced := last.updated && last.err == nil
 
 	for i := range proofs {
 		if proofs[i] == nil {
@@ -683,10 +852,26 @@ func (e *c18Env) judge(
 		return res
 	}
 
-	// success: what must the chain be?
+	// success. Does the proof handed over pass IsValid?
+	usable := c18IsValid(lastproof, e.s.LocalParams.NetworkID()) == nil
+
+	// An invalid last proof is never adopted: neither by answering nil to it, nor (when it
+	// came with updated=false or an error) by building a chain to it
+	if !usable && (announced || (lastproof != nil && len(proofs) > 0)) {
+		res.Violation = true
+		res.Outcome = "VIOLATION invalid-last-proof-adopted last:" + lastalt
+		res.Sig = map[string]any{"kind": "invalid-last-proof-adopted", "last": lastalt, "local": c18LocalClass(c.Local), "newer_than_local": c.Last > c.Local}
+		res.Detail = fmt.Sprintf("Build(local=%d) (remote last=%d as %q: %v; batchlimit=%d, deviations=%v) returned nil with %d proofs of suffrage heights [%s]",
+			c.Local, c.Last, lastalt, c18IsValid(lastproof, e.s.LocalParams.NetworkID()), c.Limit, c.Devs, len(proofs), strings.Join(res.Heights, " "))
+
+		return res
+	}
+
+	// what must the chain be? A valid proof which came with updated=false or with an error may be
+	// ignored (nothing built); when it is used, the chain to it must be as right as to an announced one
 	var expected []int
 
-	if lastproof != nil && lastalt != "notupdated" && c.Last > c.Local {
+	if usable && (announced || len(proofs) > 0) && c.Last > c.Local {
 		for h := c.Local + 1; h <= c.Last; h++ {
 			expected = append(expected, h)
 		}
@@ -762,6 +947,14 @@ func (e *c18Env) judge(
 	}
 
 	return res
+}
+
+func c18LocalClass(local int) string {
+	if local < 0 {
+		return "none"
+	}
+
+	return "state"
 }
 
 func c18DevKinds(devs []c18Dev) string {
@@ -918,10 +1111,12 @@ func TestVerifC18(t *testing.T) {
 	defer r.Finish()
 
 	r.Rule("local state in {none, 0..H}, remote last proof in 0..H, batch limit in {1,2,3,333}; the default remote answers right; " +
-		"0, 1 and 2 deviations at every position (last proof: foreign/not updated/error; candidate state: error; each requested height: " +
+		"0, 1 and 2 deviations at every position (last proof: " + c18LastAltNames() + "; candidate state: error; each requested height: " +
 		"not found, error, same height of a foreign chain, proof of h+1, proof of h-1, proof of height 0 below the local state" +
 		", same suffrage height from a chain whose blocks are 10 higher); every combination of per-batch arrival orders " +
-		"(all permutations for batches <= 3 (quick) / <= 4 (thorough), identity/reverse/two rotations above); non-trivial = at least one deviation")
+		"(all permutations for batches <= 3 (quick) / <= 4 (thorough), identity/reverse/two rotations above; identity only when the last proof handed over " +
+		"is invalid or comes with updated=false or an error, where the real Build does not fetch); non-trivial = at least one deviation")
+	r.Set("last_proof_menu", c18LastAltNames())
 	r.Assume("arrival order in prove() forced by parking the fetches; completion of a job observed through runtime.NumGoroutine")
 	r.Assume("cases run in a child process; a case that kills the child is a panic of the real code, its trace is the witness")
 	r.Set("suffrage_heights", vlib.Pick(r, "0..4", "0..5"))
@@ -1039,7 +1234,7 @@ func c18RunChild(t *testing.T, r *vlib.Run, skip int, only string, panickedFile 
 		r.Nontrivial(c.ID)
 		r.Outcome("VIOLATION panic in " + site)
 		r.Violation(c.ID,
-			map[string]any{"kind": "panic", "site": site},
+			map[string]any{"kind": "panic", "site": site, "deviations": c18DevKinds(c.Devs), "local": c18LocalClass(c.Local)},
 			fmt.Sprintf("Build(local=%d) (remote last=%d, batchlimit=%d, deviations=%v, arrival order %s) killed the process: %s; first mitum frame: %s\n%s",
 				c.Local, c.Last, c.Limit, c.Devs, c.Order, msg, site, c18Tail(c18TraceHead(output.String()), 1500)),
 			c)
